@@ -195,17 +195,47 @@ func c16Body(c *Check) {
 			}
 		}
 	}
+	// balanced nesting (opener^n body closer^n): accepted programs, so the printer runs on the deep tree as well
+	for _, bw := range [][3]string{{"{", "", "}"}, {"[", "", "]"}, {"(a,", "1", ")"}, {"f(", "", ")"}, {"`${", "1", "}`"}, {"a?(", "1", "):2"}, {"-(", "1", ")"}, {"()=>{", "", "}"}, {"if(a){", "", "}"}, {"a=[", "1", "]"}, {"({a:", "1", "})"}, {"class A{static{", "", "}}"}} {
+		words = append(words, nw{bw[0] + "\x00" + bw[1] + "\x00" + bw[2], []int{0, 3}})
+	}
+	words = append(words, nw{"<a>\x00x\x00</a>", []int{1, 3}}, nw{"[\x001\x00]", []int{6}}, nw{"{\"a\":\x001\x00}", []int{6}},
+		nw{"a{\x00color:red\x00}", []int{4, 5}}, nw{"@media screen{\x00a{color:red}\x00}", []int{4, 5}}, nw{"a{&:hover{\x00color:red\x00}}", []int{4, 5}})
 	c.ForEach(uint64(len(words)), func(w int, i uint64) {
 		wd := words[i]
 		for _, li := range wd.li {
 			var prev time.Duration
 			for _, n := range ns {
+				css := li == 4 || li == 5
+				balanced := strings.Contains(wd.w, "\x00")
+				if n > 2000 && (css || balanced) {
+					// blocks nested n deep are pretty-printed with 2n^2 bytes of indentation (size oracle below; CSS closes
+					// unbalanced blocks itself): depth 20000 would mean 800 MB of output, so these stop at 2000
+					continue
+				}
 				in := strings.Repeat(wd.w, n)
+				if balanced {
+					p := strings.Split(wd.w, "\x00")
+					in = strings.Repeat(p[0], n) + p[1] + strings.Repeat(p[2], n)
+				}
 				r := c16Eval(c, in, li, 0, "nesting")
 				if r.hung {
 					break
 				}
 				c.Sub("nesting_cases", 1)
+				// size oracle (deterministic, unlike run time): output larger than 200x the input
+				if n >= 1000 && len(r.out) > 200*len(in) {
+					stripped := 0
+					for _, line := range strings.Split(r.out, "\n") {
+						stripped += len(strings.TrimLeft(line, " ")) + 1
+					}
+					key := "output-size-superlinear:" + c16Loaders[li].name + ":" + strings.ReplaceAll(wd.w, "\x00", "…")
+					if stripped <= 20*len(in) {
+						// differential: without the leading spaces of each line the output is linear in the input
+						key = "pretty-printed-indentation-is-quadratic-in-block-nesting-depth"
+					}
+					c.Violation(key, map[string]interface{}{"kind": "output size grows quadratically with nesting depth", "word": wd.w, "n": n, "input_bytes": len(in), "output_bytes": len(r.out), "output_bytes_without_indentation": stripped, "loader": c16Loaders[li].name})
+				}
 				if n >= 2000 && prev > 200*time.Millisecond && r.dur > 64*prev {
 					// growth check between n and 2n (thorough: 1000 -> 2000) must stay polynomial
 					c.Violation("superlinear:"+wd.w, map[string]interface{}{"kind": "run time grows faster than n^6 between n and 2n", "word": wd.w, "n": n, "t_prev": prev.String(), "t": r.dur.String()})
@@ -266,7 +296,7 @@ func c16Body(c *Check) {
 
 func runC16(c *Check) {
 	c.Rule = "byte words<=3 over 38-40 byte classes x 7 loaders; C13 token words<=2 under jsx/ts/tsx with minify/target/sourcemap; every string literal of the repository's parser/printer/bundler tests under all loaders plus single-token deletions/duplications/swaps; nesting words w^n; source-map payload grammar; package.json/tsconfig.json key x value-kind matrix through real bundles; oracle: call returns, no panic / internal error text, process survives (workers are subprocesses with a journal), canary build afterwards; distinct = distinct (loader, output) pairs"
-	c.Assump = []string{"inputs above tens of kilobytes and nesting above 20000 are not explored", "hang = no answer for 120 s"}
+	c.Assump = []string{"inputs above tens of kilobytes and nesting above 20000 (2000 for accepted nestings, whose pretty-printed output is quadratic) are not explored", "hang = no answer for 120 s"}
 	if c.shardN > 1 {
 		c16Journal = argVal("--journal", "")
 		c16Body(c)
